@@ -260,7 +260,7 @@ func TestC04NoSecretOnDisk(t *testing.T) {
 				} else {
 					c.Class("convert-while-unlocked")
 				}
-				m.C04Convert()
+				m.C04Convert(rapid.IntRange(0, 2).Draw(t, "neuterRootFirst") == 0)
 				check("convert-to-watching-only")
 				m.C04CheckCiphertextsGone("right after conversion", privateBlobs, func(addr string) {
 					c.Class("observation:taproot-script-ciphertext-survives-conversion")
